@@ -178,7 +178,7 @@ def _digest_worker(args):
             res = mod.check(case)
             h = hashlib.sha256(json.dumps(case, sort_keys=True, default=str).encode())
             h.update(repr((res.digest, res.sched, sorted((v.clause, v.sig, v.msg) for v in res.violations),
-                           sorted(res.stats.items()), sorted(res.keys))).encode())
+                           sorted((k, v) for k, v in res.stats.items() if not k.startswith("hist:")), sorted(res.keys))).encode())
             out[i] = h.hexdigest()[:20]
         except Exception as e:
             out[i] = "EXC:%s:%s" % (type(e).__name__, str(e)[:80])
